@@ -299,7 +299,8 @@ def explore(spec: SeqSpec, report, deadline: float | None = None):
             if report.violations and depth < r_depth and os.environ.get('DOSMC_KEEP_GOING') != '1':
                 capped = f'stopped after depth {depth} of root {rname}: violations found (shortest first)'
                 break
-        per_root[rname] = {'states': root_states, 'transitions': root_trans, 'depth': r_depth, 'max_variants': r_maxv}
+        per_root[rname] = {'states': root_states, 'transitions': root_trans, 'depth': r_depth, 'max_variants': r_maxv,
+                           'core_ops': len(core), 'variant_ops': len(variants)}
         if capped:
             break
     common.shutdown_pool()
